@@ -443,7 +443,10 @@ type Opts struct {
 	Profile        string // auto | streaming | standard
 	EPs            []EP
 	ModelDiscovery bool
-	Mutate         func(*config.Config)
+	// Env: environment variables set while config.Load reads the configuration (only with Load); the process
+	// environment is shared, so loads with Env are serialised and the variables are removed again afterwards
+	Env    map[string]string
+	Mutate func(*config.Config)
 	// Load: write the configuration out as YAML and read it back through config.Load (the call main.go makes),
 	// so that the file loader, its defaulting and its validation are part of what is exercised
 	Load bool
@@ -535,6 +538,7 @@ func freePort() int {
 func FreePort() int { return freePort() }
 
 var startMu sync.Mutex
+var envMu sync.Mutex
 
 func Start(o Opts) (*Stack, error) {
 	var lastErr error
@@ -551,7 +555,7 @@ func Start(o Opts) (*Stack, error) {
 func start1(o Opts) (*Stack, error) {
 	cfg := config.DefaultConfig()
 	cfg.Server.Host = "127.0.0.1"
-	cfg.Server.RequestLogging = false
+	cfg.Server.RequestLogging = true // the default: the logging middleware is part of what production runs
 	cfg.Server.RateLimits.GlobalRequestsPerMinute = 0
 	cfg.Server.RateLimits.PerIPRequestsPerMinute = 0
 	cfg.Server.RateLimits.HealthRequestsPerMinute = 0
@@ -598,13 +602,30 @@ func start1(o Opts) (*Stack, error) {
 		if err != nil {
 			return nil, fmt.Errorf("stack: marshal config: %w", err)
 		}
+		// TrustedProxyCIDRsParsed is a cache without a yaml tag: an operator's file never carries it
+		var kept []string
+		for _, ln := range strings.Split(string(data), "\n") {
+			if strings.HasPrefix(strings.TrimSpace(ln), "trustedproxycidrsparsed:") {
+				continue
+			}
+			kept = append(kept, ln)
+		}
+		data = []byte(strings.Join(kept, "\n"))
 		f, err := os.CreateTemp("", "olla-verif-*.yaml")
 		if err != nil {
 			return nil, err
 		}
 		f.Write(data)
 		f.Close()
+		envMu.Lock()
+		for k, v := range o.Env {
+			os.Setenv(k, v)
+		}
 		loaded, err := config.Load(f.Name())
+		for k := range o.Env {
+			os.Unsetenv(k)
+		}
+		envMu.Unlock()
 		os.Remove(f.Name())
 		if err != nil {
 			return nil, fmt.Errorf("stack: config.Load: %w", err)
